@@ -57,7 +57,7 @@ def program(rng, family=None):
     """returns (line_without_id, meta)"""
     be = rng.choice(BACKENDS)
     n = rng.choice([8, 8, 16, 16, 32, 64])
-    fams = ["dft_roundtrip", "dft_select", "dft_arith", "dft_assign", "svp", "svp_dft", "vmp", "vmp_offset", "vmp_small", "cnv", "cnv_pair", "setsize"]
+    fams = ["dft_roundtrip", "dft_select", "dft_arith", "dft_assign", "svp", "svp_dft", "vmp", "vmp_offset", "vmp_small", "cnv", "cnv_pair", "cnv_const", "setsize"]
     fam = family or rng.choice(fams)
     cls = rng.choice(["random", "random", "random", "max", "min", "alt", "sparse", "zero"])
     st = []
@@ -191,6 +191,19 @@ def program(rng, family=None):
             st.append(f"cnv_pairwise {off} d {dc} l r {rng.below(cols)} {rng.below(cols)}")
         st += ["dump d", "dump a", "dump b"]
         meta.update(off=off, pa=pa, pb=pb, rs=rs, rc=rc)
+    elif fam == "cnv_const":
+        ac = rng.range(1, 3)
+        asz, bsz = rng.range(1, 5), rng.range(1, 5)
+        bits = rng.range(2, 30 if be.startswith("ntt120") else 26)
+        off = rng.range(0, asz + bsz + 1)
+        consts = [rng.range(-(1 << (bits - 1)), (1 << (bits - 1)) - 1) for _ in range(bsz)]
+        if cls in ("max", "min", "alt"):
+            consts = [((1 << (bits - 1)) - 1) if (k % 2 == 0 or cls == "max") and cls != "min" else -(1 << (bits - 1)) for k in range(bsz)]
+        st.append(f"vec a {ac} {asz} {value_gen(rng, n, ac, asz, bits, cls)}")
+        st.append(f"big d {rc} {rs} {gen_r(rng, 9)}")
+        st.append(f"cnv_by_const {off} d {dc} a {rng.below(ac)} {','.join(str(c) for c in consts)}")
+        st += ["dump d", "dump a"]
+        meta.update(off=off, rs=rs)
     elif fam == "setsize":
         # operate on a shrunk result, then grow back: limbs beyond the active size must be untouched
         cap = rng.range(2, 6)
